@@ -34,6 +34,9 @@ EXTENDS Integers, Sequences, FiniteSets, SequencesExt
 
 CONSTANT UnitFix   \* FALSE: unit suffix placement as coded today (finding CF08);
                    \* TRUE : the proposed repair (unit is part of the family name)
+CONSTANT TypeByName \* TRUE : as coded - the TYPE of a distribution is decided per metric name, like its storage;
+                    \* FALSE: witness variant - "histogram" as soon as any per-metric override exists
+                    \*        (must be rejected by the recogniser: quantile samples under TYPE histogram)
 
 \* ---------------------------------------------------------------- code points
 LF == 10      TAB == 9     SP == 32     DQ == 34    HASH == 35   PLUS == 43
@@ -158,25 +161,45 @@ TypeLine(fam, ty)   == TYPEP \o fam \o <<SP>> \o ty
 MetricLine(name, suffix, labels, addl, unit) ==
   SampleName(name, suffix, unit) \o LabelBlock(labels, addl) \o <<SP, VALMARK>>
 
-(* A scene: cfg = [suffix : BOOLEAN, buckets : Seq(token)  (<<>> = summary mode),            *)
+(* A scene: cfg = [suffix : BOOLEAN, buckets : Seq(token)  (global buckets, <<>> = none),    *)
+(*                 overrides : Seq([kind : {"Full","Prefix","Suffix"}, pat, buckets]),       *)
 (*                 quantiles : Seq(token), globals : Seq(<<k, v>>)]                          *)
 (*          fams = Seq([kind : {"counter","gauge","distribution"}, name, described, desc,    *)
 (*                      unit : Units \cup {"none"}, series : Seq([labels : Seq(<<k, v>>)])]) *)
 EffUnit(f, cfg) == IF f.described /\ cfg.suffix THEN f.unit ELSE "none"   \* descriptions.get(..) + filter
+\* set_buckets_for_metric(matcher, values): the matcher is stored sanitised (Matcher::sanitized) and
+\* matched against the sanitised metric name (Matcher::matches).
+OvMatches(o, name) ==
+  LET p == SanitizeMetricName(o.pat) IN
+  CASE o.kind = "Full"   -> name = p
+    [] o.kind = "Prefix" -> Len(p) <= Len(name) /\ SubSeq(name, 1, Len(p)) = p
+    [] OTHER             -> Len(p) <= Len(name) /\ SubSeq(name, Len(name) - Len(p) + 1, Len(name)) = p
+Matching(cfg, name) == SelectSeq(cfg.overrides, LAMBDA o : OvMatches(o, name))
+\* DistributionBuilder::get_distribution(name): what is stored and rendered for the series.  A matching
+\* override wins over the global buckets; neither = summary (<<>>).  Which of SEVERAL matching overrides
+\* wins (the sorted matcher order) is C15's subject: scenes have at most one matching override per name.
+EffBuckets(f, cfg) ==
+  LET m == Matching(cfg, SanitizeMetricName(f.name)) IN IF m # <<>> THEN m[1].buckets ELSE cfg.buckets
+\* DistributionBuilder::get_distribution_type(name): what the TYPE line says - decided separately by the code.
+DistType(cfg, name) ==
+  IF cfg.buckets # <<>> THEN T_HISTO
+  ELSE IF (IF TypeByName THEN Matching(cfg, name) # <<>> ELSE cfg.overrides # <<>>) THEN T_HISTO
+  ELSE T_SUMMARY
 TypeTok(f, cfg) ==
   CASE f.kind = "counter" -> T_COUNTER
     [] f.kind = "gauge"   -> T_GAUGE
-    [] OTHER              -> IF cfg.buckets # <<>> THEN T_HISTO ELSE T_SUMMARY
+    [] OTHER              -> DistType(cfg, SanitizeMetricName(f.name))
 
 SeriesLines(f, cfg, s) ==
   LET name == SanitizeMetricName(f.name)
       unit == EffUnit(f, cfg)
       labels == KeyLabels(cfg.globals, s.labels)
+      bk == EffBuckets(f, cfg)
   IN IF f.kind \in {"counter", "gauge"} THEN << MetricLine(name, <<>>, labels, <<>>, unit) >>
-     ELSE IF cfg.buckets = <<>>
+     ELSE IF bk = <<>>
           THEN [i \in DOMAIN cfg.quantiles |-> MetricLine(name, <<>>, labels, <<L_QUANT, cfg.quantiles[i]>>, unit)]
                \o << MetricLine(name, S_SUM, labels, <<>>, unit), MetricLine(name, S_COUNT, labels, <<>>, unit) >>
-          ELSE [i \in DOMAIN cfg.buckets |-> MetricLine(name, S_BUCKET, labels, <<L_LE, cfg.buckets[i]>>, unit)]
+          ELSE [i \in DOMAIN bk |-> MetricLine(name, S_BUCKET, labels, <<L_LE, bk[i]>>, unit)]
                \o << MetricLine(name, S_BUCKET, labels, <<L_LE, V_PINF>>, unit),
                      MetricLine(name, S_SUM, labels, <<>>, unit), MetricLine(name, S_COUNT, labels, <<>>, unit) >>
 
@@ -242,6 +265,14 @@ TypeSuffixes(ty) ==
     [] ty = T_SUMMARY -> {<<US>> \o S_SUM, <<US>> \o S_COUNT}
     [] OTHER          -> {}
 AllowedNames(fam, ty) == {fam} \cup {fam \o s : s \in TypeSuffixes(ty)}
+\* ... and what the declared type allows a sample with suffix `sfx` and label names `lnames` to be:
+\* a histogram has no bare-name samples, `le` belongs to (and only to) its _bucket samples,
+\* `quantile` to (and only to) the bare-name samples of a summary.
+RoleOK(ty, sfx, lnames) ==
+  /\ (ty = T_HISTO => sfx # <<>>)
+  /\ ((L_LE \in lnames) <=> (ty = T_HISTO /\ sfx = <<US>> \o S_BUCKET))
+  /\ ((L_QUANT \in lnames) <=> (ty = T_SUMMARY /\ sfx = <<>>))
+SfxOf(fam, ty, n) == CHOOSE s \in {<<>>} \cup TypeSuffixes(ty) : n = fam \o s
 
 \* The named deviation CF08: with unit suffixes enabled, a described family `fam` with unit suffix
 \* `_u` gets samples named fam [+ _suffix] + _u.  ctx.units = set of <<family name, unit suffix>>
@@ -249,6 +280,8 @@ AllowedNames(fam, ty) == {fam} \cup {fam \o s : s \in TypeSuffixes(ty)}
 IsCF08(ctx, fam, ty, n) ==
   \E p \in ctx.units : p[1] = fam /\ p[2] # <<>> /\
      \E s \in {<<>>} \cup TypeSuffixes(ty) : n = fam \o s \o p[2]
+SfxOfCF08(ctx, fam, ty, n) ==
+  CHOOSE s \in {<<>>} \cup TypeSuffixes(ty) : \E p \in ctx.units : p[1] = fam /\ p[2] # <<>> /\ n = fam \o s \o p[2]
 NoCtx == [units |-> {}]
 
 RInit == [q |-> "bol", tok |-> <<>>, name |-> <<>>, ty |-> <<>>, lnames |-> {}, err |-> "",
@@ -283,8 +316,14 @@ EndType(st) ==
 
 EndSample(ctx, st) ==
   LET s1 == IF st.cur = <<>> \/ st.curType = <<>> THEN Fail(st, "sample without a preceding TYPE line of its family")
-            ELSE IF st.name \in AllowedNames(st.cur, st.curType) THEN [st EXCEPT !.curSamples = TRUE]
-            ELSE IF IsCF08(ctx, st.cur, st.curType, st.name) THEN [st EXCEPT !.curSamples = TRUE, !.cf08 = TRUE]
+            ELSE IF st.name \in AllowedNames(st.cur, st.curType)
+                 THEN IF RoleOK(st.curType, SfxOf(st.cur, st.curType, st.name), st.lnames)
+                      THEN [st EXCEPT !.curSamples = TRUE]
+                      ELSE Fail(st, "sample (bare name / le / quantile) not allowed by the declared type of its family")
+            ELSE IF IsCF08(ctx, st.cur, st.curType, st.name)
+                 THEN IF RoleOK(st.curType, SfxOfCF08(ctx, st.cur, st.curType, st.name), st.lnames)
+                      THEN [st EXCEPT !.curSamples = TRUE, !.cf08 = TRUE]
+                      ELSE Fail(st, "sample (bare name / le / quantile) not allowed by the declared type of its family")
             ELSE Fail(st, "sample name is not the family name plus a suffix its type allows")
   IN IF s1.err # "" THEN s1 ELSE NewLine([s1 EXCEPT !.nSample = @ + 1])
 
@@ -488,8 +527,8 @@ ExpLabelCount ==
   LET n(i, j) == Len(MergeLabels(inp.cfg.globals, inp.fams[i].series[j].labels))
       perSeries(i, j) ==
         IF inp.fams[i].kind \in {"counter", "gauge"} THEN n(i, j)
-        ELSE IF inp.cfg.buckets = <<>> THEN Len(inp.cfg.quantiles) * (n(i, j) + 1) + 2 * n(i, j)
-        ELSE (Len(inp.cfg.buckets) + 1) * (n(i, j) + 1) + 2 * n(i, j)
+        ELSE IF EffBuckets(inp.fams[i], inp.cfg) = <<>> THEN Len(inp.cfg.quantiles) * (n(i, j) + 1) + 2 * n(i, j)
+        ELSE (Len(EffBuckets(inp.fams[i], inp.cfg)) + 1) * (n(i, j) + 1) + 2 * n(i, j)
       S(acc, ij) == acc + perSeries(ij[1], ij[2])
   IN FoldLeft(S, 0, SetToSeq(SeriesIdx))
 NoForgery ==
